@@ -641,6 +641,53 @@ fn random(out: &mut Vec<ModuleSpec>, n: usize, seed: u64) {
     }
 }
 
+/// H6: placement stress. Dense bases, runs of removals that open holes of many sizes and
+/// alignments, refills with data whose size is not their alignment, one more close afterwards
+/// (a placement slip of one close shows as an overlap there or in the next one).
+fn holes(out: &mut Vec<ModuleSpec>, n: usize, seed: u64) {
+    let sized: [Ty; 14] = [U8, U16, U32, U64, U128, A3U8, A3U16, Odd12, A24, Str, Char, Bool, F64, Over16];
+    let mut rng = Rng::new(seed ^ 0x5eed_4013);
+    for m in 0..n {
+        let mut h = Vec::new();
+        let base_len = 4 + rng.below(5);
+        let mut live: Vec<String> = Vec::new();
+        for i in 0..base_len {
+            let t = rng.pick(&sized);
+            let nme = format!("b{}", i);
+            h.push(if t.is_copy() && rng.chance(1, 2) { addu(&nme, t) } else { add(&nme, t) });
+            live.push(nme);
+        }
+        h.push(close(if rng.chance(1, 2) { Append } else { rng.pick(&STRATEGIES) }));
+        let rounds = 2 + rng.below(2);
+        let mut next = 0usize;
+        for r in 0..rounds {
+            // remove a contiguous run (in declaration order) and sometimes one more
+            if !live.is_empty() {
+                let start = rng.below(live.len());
+                let len = 1 + rng.below(3.min(live.len() - start));
+                for _ in 0..len {
+                    let nme = live.remove(start);
+                    h.push(rm(&nme));
+                }
+                if live.len() > 2 && rng.chance(1, 3) {
+                    let i = rng.below(live.len());
+                    h.push(rm(&live.remove(i)));
+                }
+            }
+            let adds = 1 + rng.below(if r == 0 { 4 } else { 2 });
+            for _ in 0..adds {
+                let t = rng.pick(&sized);
+                let nme = format!("n{}", next);
+                next += 1;
+                h.push(if t.is_copy() && rng.chance(1, 2) { addu(&nme, t) } else { add(&nme, t) });
+                live.push(nme);
+            }
+            h.push(close(if rng.chance(1, 2) { Simple } else { Basic }));
+        }
+        fragments(ModuleSpec::new(format!("h6/{}/{}", seed, m), h), out, false);
+    }
+}
+
 pub fn specs(thorough: bool, seed: u64) -> Vec<ModuleSpec> {
     let mut out = Vec::new();
     h1(&mut out, thorough);
@@ -648,6 +695,10 @@ pub fn specs(thorough: bool, seed: u64) -> Vec<ModuleSpec> {
     h3(&mut out, thorough);
     h4(&mut out, thorough);
     h5(&mut out, thorough);
+    holes(&mut out, if thorough { 300 } else { 120 }, 7);
+    if thorough {
+        holes(&mut out, 900, seed.wrapping_add(77));
+    }
     // the quick tier's random extension is pinned; the thorough one follows VERIF_SEED
     random(&mut out, if thorough { 80 } else { 16 }, 1);
     if thorough {
